@@ -525,7 +525,31 @@ func wellFormed(args string) bool {
 // drawRoot draws a root with its history, biased towards final and forcing roots.
 func drawRoot(t *rapid.T, rec *evid.Rec) Case {
 	var c Case
-	switch gen.Draw(t, 0, 9, "rootKind") {
+	switch gen.Draw(t, 0, 10, "rootKind") {
+	case 10: // the listed known-finding class: start FEN with a raw, uncapturable en-passant target, shuffled back to twice
+		if p, m, _, ok := gen.EPMotif(t); ok {
+			start := p.Make(m)
+			if start.EP >= 0 && !start.EPCapturable() && !start.InCheck(start.White) {
+				// find a four-ply shuffle: a, b, a-back, b-back
+				l1 := start.Legal()
+				for _, a := range l1 {
+					p1 := start.Make(a)
+					done := false
+					for _, b := range p1.Legal() {
+						p2 := p1.Make(b)
+						ab, bb := refchess.Move{From: a.To, To: a.From}, refchess.Move{From: b.To, To: b.From}
+						if q, ok := legalSeq(p2, ab, bb); ok && q.Key() == start.Key() {
+							c = Case{FEN: start.FEN(), Moves: []string{a.String(), b.String(), ab.String(), bb.String(), a.String(), b.String(), ab.String(), bb.String()}}
+							done = true
+							break
+						}
+					}
+					if done {
+						break
+					}
+				}
+			}
+		}
 	case 0: // histories that tend to repeat
 		root, _ := gen.Root(t)
 		if gen.Chance(t, 1, 2, "startpos") {
@@ -568,6 +592,25 @@ func drawRoot(t *rapid.T, rec *evid.Rec) Case {
 		})
 	}
 	return c
+}
+
+// legalSeq plays the moves if each is legal in turn.
+func legalSeq(p refchess.Pos, ms ...refchess.Move) (refchess.Pos, bool) {
+	for _, m := range ms {
+		ok := false
+		for _, l := range p.Legal() {
+			ok = ok || l == m
+		}
+		if !ok || p.IsCapture(m) {
+			return p, false
+		}
+		k := p.Sq[m.From]
+		if k == refchess.Pawn || k == -refchess.Pawn {
+			return p, false
+		}
+		p = p.Make(m)
+	}
+	return p, true
 }
 
 func drawLimits(t *rapid.T, c *Case) {
